@@ -397,7 +397,10 @@ def _flat_index_impls_ok(crate, S):
                     rets = [ev for ev in an.events if ev["k"] == "return"]
                     good = False
                     if len(rets) == 1:
-                        c, i = elem_access(rets[0]["val"])
+                        rv_ = rets[0]["val"]
+                        if rv_[0] == "addr" and rv_[2] is not None:
+                            rv_ = rv_[2]            # &slice[i]: the address of an element
+                        c, i = elem_access(rv_)
                         if c is None and rets[0]["val"][0] == "phi":
                             for pb, _ in an.cfg.pred[rets[0]["val"][1]]:
                                 c, i = elem_access(an.var_term(an.ver_out[pb], rets[0]["val"][2]))
@@ -754,6 +757,8 @@ def _center_clause(crate, o, m, ecc_path):
     cmps = [ev for ev in an.events if ev["k"] == "call" and ev["key"] == "core::cmp::Ord::cmp"]
     if len(nexts) != 1 or len(cmps) != 1 or an.cfg.loop_of(cmps[0]["b"]) != an.cfg.loop_of(nexts[0]["b"]):
         for ev, what in restrictions_in(crate, m):
+            if what in ("filter", "filter_map", "position", "find"):
+                continue        # selecting the vertices that attain the minimum is what center does
             o.check(False, who, "partial-scan:" + what, "center looks at only a part of the eccentricities (%s)" % what, ev["span"])
         o.undecide(who, "center-definition", "center is not written as one `for (i, e) in eccentricities().enumerate()` loop around `e.cmp(&min)`")
         return
@@ -922,6 +927,39 @@ def _mentions_infinity(cl, r):
     return rec(r)
 
 
+def _unmarked_by_option_filter(crate, an, R, i):
+    """i is the payload of `link.filter(|&v| .. && !marks[v])?`: the closure returns true only when marks[v] was read false"""
+    from .closures import capture_map
+    if not (i[0] == "field" and i[2] == "0" and i[1][0] == "dc" and i[1][2] == "Some" and i[1][1][0] == "call"
+            and i[1][1][1] == "core::option::Option::filter" and len(i[1][1][3]) == 2):
+        return False
+    clo = i[1][1][3][1]
+    if not (clo[0] == "agg" and clo[1] == "closure"):
+        return False
+    cl = crate.an(clo[2])
+    cm = capture_map(crate, cl)
+    if cm is None:
+        return False
+    inner = {cr for pr, cr in cm.regmap if pr == R}
+    rets = [e for e in cl.events if e["k"] == "return"]
+    if len(rets) != 1 or not inner:
+        return False
+    rv = rets[0]["val"]
+    ins = cl.phi_inputs(rv[1], rv[2]) if rv[0] == "phi" and len(rv) == 3 else [rv]
+    param = ("mem", "A2", ("e",), None)
+    saw = False
+    for t in ins:
+        if t == ("const", "bool", 0):
+            continue
+        if t[0] == "un" and t[1] == "Not" and t[2][0] == "mem":
+            r, idx = load_parts(t[2])
+            if r in inner and idx == param:
+                saw = True
+                continue
+        return False
+    return saw
+
+
 # ---------------------------------------------------------------------------
 def rule_terminate(crate, prop, tier):
     o = Obl("TERMINATE")
@@ -943,7 +981,8 @@ def rule_terminate(crate, prop, tier):
             for ev in marks:
                 c, i = store_elem(ev)
                 R = region_of_container(c)
-                if ev["b"] in body and an.cfg.dominates(ev["b"], lb) and R and world_has_load(fx, ev["b"], False, R, i):
+                if ev["b"] in body and an.cfg.dominates(ev["b"], lb) and R and \
+                        (world_has_load(fx, ev["b"], False, R, i) or _unmarked_by_option_filter(crate, an, R, i)):
                     # the marked vertex is the next current vertex
                     good = True
                     # length of visited equals pred.len()
@@ -959,7 +998,8 @@ def rule_terminate(crate, prop, tier):
             continue
         ev_ = st.ev
         start_read = st.kind == "index" and ev_["k"] == "call" and len(ev_["args"]) == 2 and ev_["args"][1] == ("arg", 2) and \
-            ev_["args"][0][0] in ("addr", "at") and ev_["args"][0][1] == "A1.pred"
+            ((ev_["args"][0][0] in ("addr", "at") and ev_["args"][0][1] == "A1.pred") or
+             ev_["args"][0] == ("arg", 1))       # self.pred[s], or self[s] through the tree's own Index impl
         o.check(start_read, who, "no-panic-in-walk", "the walk along the predecessor links can panic (%s): for in-range vectors "
                 "search_by must terminate with Some or None" % st.kind, st.span)
     # search delegates to search_by
